@@ -75,7 +75,8 @@ PLACEMENTS = [["skip"], ["skipif_true"], ["skipif_false"], ["skipif_false", "ski
 def small_scope(ctx):
     """fixed shapes × every single placement of skip / skipif(True) / skipif(False) / both skipifs × options × fresh / built state,
     and every single-task -k, -m on one marked task, both combined. Quick tier: the option sets rotate; thorough: full product."""
-    full = ctx.thorough or ctx.budget > 1.0
+    full = ctx.thorough
+    keep = 1 if full else (2 if ctx.budget > 1.0 else 4)      # quick: every 4th combination (rotating), intensified: every 2nd
     hs = []
     optsets = [{}, {"force": True}, {"dry": True}, {"force": True, "dry": True}]
     n = 0
@@ -88,10 +89,10 @@ def small_scope(ctx):
     for shape, tasks in SHAPES.items():
         for (tid, *_r) in tasks:
             for pl in PLACEMENTS:
+                n += 1                     # block counter: rotates which option sets / states a placement gets
                 for oi, opts in enumerate(optsets):
                     for built in (False, True):
-                        n += 1
-                        if not full and (n % 8) != (oi * 2 + built):
+                        if (n + 2 * oi + built) % keep:
                             continue
                         spec = mk(shape, {tid: pl})
                         steps = []
@@ -104,7 +105,7 @@ def small_scope(ctx):
         for tid in ids:
             for mid in ids:
                 n += 1
-                if not full and n % 3:
+                if n % min(keep, 3) and not full:
                     continue
                 spec = mk(shape, {mid: ["markone"]})
                 for cfg in ({"k": project.tname(tid)}, {"m": "markone"}, {"k": project.tname(tid), "m": "markone"},
@@ -123,7 +124,7 @@ def histories(ctx):
         {"id": 2, "module": 0, "deps": [], "prods": [22], "after": [], "marks": [], "beh": "ok", "style": "default"}],
         "versions": {"0": 0}, "inputs": {}}, "steps": [["build", {"k": "task_t00x", "m": "skip"}]]})
     hs += small_scope(ctx)
-    for i in range(ctx.scale(100, 1300)):
+    for i in range(ctx.scale(90, 1300)):
         spec = engine.gen_spec(rng, nt=(2, 7), after_p=0.25, after_needs_prods=True, user_markers=True,
                                marks=(("skip", 0.12), ("skipif_true", 0.1), ("skipif_false", 0.15), ("persist", 0.08)))
         steps = []
